@@ -4,6 +4,7 @@ CONSTANTS
   NC = 2
   Tasks <- TrTasks
   MaxOps <- TrOps
+  WithClear = TRUE
   FixJoin = TRUE
   FixGrow = TRUE
 INVARIANT Monitor
